@@ -6,10 +6,12 @@ CONSTANTS
   KeyU <- MC_KeyU
   PatU <- MC_PatU
   ParentU <- MC_ParentU
-  MaxVer = 2
+  Tids_ = {1, 2}
+  Parents_ = {"", "a", "a/b", "z"}
+  MaxVer = 1
   MaxAcq = 0
-  MaxSubs = 0
+  MaxSubs = 2
   NeedConnect = FALSE
 CONSTRAINT Bound
-INVARIANTS C01Inv C05Inv CleanTrees NeverDown EdgeInv
+INVARIANTS C01InvMC C05InvMC CleanTrees NeverDown EdgeInv
 CHECK_DEADLOCK FALSE
